@@ -361,8 +361,8 @@ def discover_programs(ctx):
             for f in sorted(fn):
                 if f.endswith(".wa") and not f.endswith("_test.wa"):
                     repo.append(("repo", os.path.join(dp, f), f))
-    if ctx.tier == "quick" and len(repo) > 30:
-        repo = sorted(ctx.rng.sample(repo, 30), key=lambda t: t[1])
+    if ctx.tier == "quick" and len(repo) > 14:
+        repo = sorted(ctx.rng.sample(repo, 14), key=lambda t: t[1])
     progs += repo
     try:
         from gen import progs as genprogs          # optional shared program generator
@@ -393,6 +393,8 @@ def run_one_program(ctx, h, tag, path, vname, k, engines):
     if mods - {"syscall_js"}:
         return {"skip": "imports:" + ",".join(sorted(mods - {"syscall_js"}))}
     mainf = open(pre + ".main").read()
+    if '(export "%s")' % mainf not in wat:
+        return {"skip": "no-main-function"}          # a package file, not a program
     res = {}
     for e in engines:
         try:
